@@ -514,9 +514,25 @@ def make_atom(kind, value, spec='', extra=None):
         t = value.e
     else:
         t = value
+    # the same value rendered the same way twice gives the same placeholder (so that composed strings that are
+    # equal text are equal str objects as well)
+    if kind in ('d', 'x', 'fmt', 'chr', 'lookup'):
+        key = (kind, spec, t.get_id(), id(extra) if extra is not None else 0)
+    elif kind in ('bytes', 'bytesrepr'):
+        key = (kind, tuple(it if isinstance(it, int) else ('t', it.get_id()) for it in t))
+    else:
+        key = None
+    cache = getattr(en, 'atom_cache', None)
+    if cache is None or getattr(en, 'atom_cache_owner', None) is not en.atoms:
+        cache = en.atom_cache = {}
+        en.atom_cache_owner = en.atoms
+    if key is not None and key in cache:
+        return cache[key]
     width = None
     if en.exact_width and kind in ('d', 'x', 'fmt'):
         width = _exact_width(en, kind, t, spec)
+    elif en.exact_width and kind == 'bytes' and len(t) > 0:
+        width = len(t)          # ASCII text: one character per byte
     at = Atom(kind, t, spec, extra, width)
     at.index = len(en.atoms)
     if HEAD0 + at.index > HEADMAX:
@@ -524,6 +540,8 @@ def make_atom(kind, value, spec='', extra=None):
     en.atoms.append(at)
     s = AtomStr(chr(HEAD0 + at.index) + CONT * ((width or 1) - 1))
     s.atom = at
+    if key is not None:
+        cache[key] = s
     return s
 
 
